@@ -8,11 +8,17 @@
    yields.  The monitor c16_ok is then shown to accept every run, by an invariant per mode that
    relates the model's state to the monitor's.
 
+   A script's leading Age ops are folded into the environment by hrun (aged_env): the theorems
+   take their premises on the aged environment, the step lemmas are stated for any environment.
+
    One statement was FALSE as first written: env_ok does not bound e_elapsed from above, so the
    timer wheel may be AHEAD of the clock by the 10 s default deadline; a probe's timer is then
    born expired, the request is forgotten before it is answered, and the monitor's probe clause
-   fails (c16_wheel_ahead_refuted).  The extra premise is wheel_env, needed in server mode only;
-   wheel_env_necessary shows it is exactly what the probe clause needs. *)
+   fails (c16_wheel_ahead_refuted).  Since a timer armed at a tick the clock has reached is due
+   at once (Hostile.due), there is a second, astronomically remote way for a probe to go
+   unanswered: a queue so old (584 million years) that tokio-util's ms() saturates at u64::MAX
+   (c16_wheel_saturated_refuted).  The extra premise wheel_env, needed in server mode only,
+   excludes both; wheel_env_necessary shows it is exactly what the probe clause needs. *)
 From Coq Require Import List NArith ZArith Bool Arith Lia.
 Import ListNotations.
 From TarpcV Require Import Base Schema Time TimeProofs Framing FramingProofs Hostile.
@@ -31,11 +37,13 @@ Definition hop_wf (o : hop) : Prop :=
 
 (* ADDED PREMISE (server mode).  The timer wheel has not run ahead of the clock by the 10 s
    default deadline: elapsed (ms) is below the u64 saturation point of tokio-util's ms(), and
-   strictly before now + 10 s counted from the queue's start.  Equivalently (probe_arm below):
-   the timer of a request carrying the default deadline is armed, not born expired. *)
+   strictly before now + 10 s counted from the queue's start; and the queue's age in ms is itself
+   below that saturation point.  Equivalently (probe_arm below): the timer of a request carrying
+   the default deadline is armed at a tick the clock has not reached yet: it is not due at once. *)
 Definition wheel_env (e : env) : Prop :=
   (e_elapsed e < u64_max /\
-   e_elapsed e * 1000000 < ts_ns (e_now e) - ts_ns (e_start e) + default_deadline_secs * NS)%Z.
+   e_elapsed e * 1000000 < ts_ns (e_now e) - ts_ns (e_start e) + default_deadline_secs * NS /\
+   ts_ns (e_now e) - ts_ns (e_start e) < u64_max * 1000000)%Z.
 
 Lemma max_frame_u32 : (max_frame_default < 4294967296)%N.
 Proof. reflexivity. Qed.
@@ -68,6 +76,13 @@ Proof. intros c e s o H. unfold hstep. rewrite H. reflexivity. Qed.
 (* ------------------------------------------------------------------------------------------ *)
 (* arithmetic: what the wire and a local caller can hand to the endpoint *)
 Local Open Scope Z_scope.
+
+(* a script without leading Age runs in the environment as given *)
+Lemma aged_env_0 : forall e, aged_env e 0 = e.
+Proof.
+  intros [[ns nn] [ws wn] st el]. unfold aged_env, shift_secs.
+  cbn [e_now e_wall e_start e_elapsed t_secs t_nanos]. rewrite !Z.add_0_r. reflexivity.
+Qed.
 
 (* every raw (secs, nanos) pair that serde accepts is a Duration *)
 Lemma wire_duration_wf : forall secs nanos d, wire_duration secs nanos = Some d -> dur_wf d.
@@ -121,19 +136,16 @@ Qed.
 Definition w_wf (w : option duration) : Prop := match w with Some d => dur_wf d | None => True end.
 
 (* what start_request does once the deadline is decoded and the timer's fate is known *)
-Definition req_out (s : hst) (id : N) (hang : bool) (a : armed) : hst * list hobs :=
-  match a, hang with
-  | Armed _, false => (s, [OStarted id; OServed id])
-  | Armed _, true => (set_inflight s (id :: inflight s), [OStarted id])
-  | Expired, false => (s, [OStarted id])
-  | Expired, true => (s, [OStarted id; OAborted id])
-  end.
+Definition req_out (e : env) (s : hst) (id : N) (hang : bool) (a : armed) : hst * list hobs :=
+  if due e a then (if hang then (s, [OStarted id; OAborted id]) else (s, [OStarted id]))
+  else if hang then (set_inflight s (id :: inflight s), [OStarted id])
+  else (s, [OStarted id; OServed id]).
 
 Lemma server_request_shape : forall c e s id w hang, env_ok e -> w_wf w ->
   exists D a, de_context_deadline (e_now e) w = Ok D /\ ts_wf D /\
     arm_timer (e_start e) (e_elapsed e) (e_now e) (e_now e) D = Ok a /\
     server_request c e s id w hang =
-      if mem id (inflight s) then (s, []) else req_out s id hang a.
+      if mem id (inflight s) then (s, []) else req_out e s id hang a.
 Proof.
   intros c e s id w hang (Hm & Hw & Hq) Hd.
   assert (DD : exists D, de_context_deadline (e_now e) w = Ok D /\ ts_wf D).
@@ -147,11 +159,11 @@ Proof.
   unfold server_request. rewrite HD.
   rewrite (field_no_panic (listening c) (e_wall e) (e_now e) D Hw (proj1 Hm) HDw).
   destruct (mem id (inflight s)); [reflexivity|].
-  rewrite Ha. unfold req_out. destruct a, hang; reflexivity.
+  rewrite Ha. reflexivity.
 Qed.
 
-Lemma req_out_no_panic : forall s id hang a, has_panic (snd (req_out s id hang a)) = false.
-Proof. intros s id hang a. destruct a, hang; reflexivity. Qed.
+Lemma req_out_no_panic : forall e s id hang a, has_panic (snd (req_out e s id hang a)) = false.
+Proof. intros e s id hang a. unfold req_out. destruct (due e a), hang; reflexivity. Qed.
 
 Lemma server_request_no_panic : forall c e s id w hang, env_ok e -> w_wf w ->
   has_panic (snd (server_request c e s id w hang)) = false.
@@ -205,7 +217,7 @@ Proof.
   - destruct (caller_deadline e neg secs nanos) as [D|] eqn:CD; [|repeat split; assumption].
     pose proof (caller_deadline_wf _ _ _ _ _ He CD) as HD.
     destruct (client_call_shape c e D He HD) as (a & d & ->).
-    destruct a; cbn [fst snd set_inflight over]; repeat split; assumption.
+    destruct (due e a); cbn [fst snd set_inflight over]; repeat split; assumption.
   - destruct (mem id (inflight s)); cbn [fst snd set_inflight over]; repeat split; assumption.
   - destruct on; repeat split; assumption.
 Qed.
@@ -241,23 +253,27 @@ Proof.
 Qed.
 
 (* 1. NO PANIC, in every mode, for every script, every subscriber configuration, every cut *)
-Theorem hostile_no_panic : forall c e ops, env_ok e -> Forall hop_wf ops ->
+Theorem hostile_no_panic : forall c e ops, env_ok (aged_env e (quiet_age ops)) -> Forall hop_wf ops ->
   Forall (fun l => has_panic l = false) (fst (hrun c e ops)).
-Proof. intros c e ops He _. apply hrun_from_no_panic. assumption. Qed.
+Proof. intros c e ops He _. unfold hrun. apply hrun_from_no_panic. assumption. Qed.
 
 (* ------------------------------------------------------------------------------------------ *)
-(* the timer of a request that carries the default deadline: armed iff wheel_env *)
+(* the timer of a request that carries the default deadline: armed at a tick the clock has not
+   reached iff wheel_env, due at once otherwise *)
 
 Lemma probe_arm : forall e D, env_ok e -> ts_wf D ->
   ts_ns D = ts_ns (e_now e) + default_deadline_secs * NS ->
-  (wheel_env e -> exists w, arm_timer (e_start e) (e_elapsed e) (e_now e) (e_now e) D = Ok (Armed w)) /\
-  (~ wheel_env e -> arm_timer (e_start e) (e_elapsed e) (e_now e) (e_now e) D = Ok Expired).
+  (wheel_env e ->
+   exists w, arm_timer (e_start e) (e_elapsed e) (e_now e) (e_now e) D = Ok (Armed w) /\
+             ts_ns (e_now e) - ts_ns (e_start e) < w * 1000000) /\
+  (~ wheel_env e ->
+   exists a, arm_timer (e_start e) (e_elapsed e) (e_now e) (e_now e) D = Ok a /\ due e a = true).
 Proof.
   intros e D (Hm & _ & Hq) HD HDn.
   destruct (arm_no_panic (e_start e) (e_elapsed e) (e_now e) (e_now e) D (proj1 Hm) Hm HD Hq)
     as (a & Ha).
   destruct Hq as (Hst & He & Hle & Hlag).
-  unfold wheel_env. revert Ha. unfold arm_timer, dq_insert.
+  unfold wheel_env, due. revert Ha. unfold arm_timer, dq_insert.
   destruct (clamp_spec (e_now e) D (proj1 Hm) HD) as (TW & TN).
   assert (TE : dur_ns (dur_min (time_until (e_now e) D) max_timeout) = default_deadline_secs * NS).
   { unfold time_until. destruct (duration_since_spec D (e_now e) HD (proj1 Hm)) as [W N].
@@ -275,15 +291,24 @@ Proof.
     by (lits; lia).
   set (A := ts_ns (e_now e)) in *. set (B := ts_ns (e_start e)) in *.
   set (el := e_elapsed e) in *.
-  destruct (Z.max (Z.min u64_max ((A + default_deadline_secs * NS - B + 999999) / 1000000)) el <=? el)
-    eqn:E1.
-  - apply Z.leb_le in E1. intros _. split; [|reflexivity].
-    intros [G1 G2]. exfalso. revert E1 G1 G2. lits. intros. Z.div_mod_to_equations. lia.
+  set (q := (A + default_deadline_secs * NS - B + 999999) / 1000000).
+  assert (Q1 : A + default_deadline_secs * NS - B <= q * 1000000)
+    by (unfold q; lits; Z.div_mod_to_equations; lia).
+  assert (Q2 : q * 1000000 < A + default_deadline_secs * NS - B + 1000000)
+    by (unfold q; lits; Z.div_mod_to_equations; lia).
+  clearbody q.
+  destruct (Z.max (Z.min u64_max q) el <=? el) eqn:E1.
+  - apply Z.leb_le in E1. intros _. split.
+    + intros (G1 & G2 & _). exfalso. revert E1 G1 G2 Q1 Q2. lits. lia.
+    + intros _. exists Expired. split; reflexivity.
   - apply Z.leb_gt in E1.
-    destruct (dq_max <? Z.max (Z.min u64_max ((A + default_deadline_secs * NS - B + 999999) / 1000000)) el - el);
-      [discriminate|].
-    intros _. split; [intros _; eexists; reflexivity|].
-    intros G. exfalso. apply G. revert E1. lits. intros. Z.div_mod_to_equations. lia.
+    destruct (dq_max <? Z.max (Z.min u64_max q) el - el); [discriminate|].
+    intros _. split.
+    + intros (G1 & G2 & G3). eexists. split; [reflexivity|]. revert E1 G1 G2 G3 Q1 Q2. lits. lia.
+    + intros G. eexists. split; [reflexivity|]. apply Z.leb_le.
+      destruct (Z_lt_le_dec (A - B) (u64_max * 1000000)) as [G3|G3].
+      * exfalso. apply G. revert E1 G3 Q1 Q2. lits. lia.
+      * revert E1 G3 Q1 Q2. lits. lia.
 Qed.
 
 (* the deadline a probe is decoded to *)
@@ -330,14 +355,14 @@ Definition sinv (s : hst) (dead : bool) (run : list N) : Prop :=
   (over s = true -> dead = true) /\
   (forall x, mem x (inflight s) = true -> mem x run = true).
 
-Lemma req_out_inv : forall s id hang a dead run, sinv s dead run -> mem id (inflight s) = false ->
-  sinv (fst (req_out s id hang a)) dead (track run (snd (req_out s id hang a))).
+Lemma req_out_inv : forall e s id hang a dead run, sinv s dead run -> mem id (inflight s) = false ->
+  sinv (fst (req_out e s id hang a)) dead (track run (snd (req_out e s id hang a))).
 Proof.
-  intros s id hang a dead run [Ho Hi] Hid.
+  intros e s id hang a dead run [Ho Hi] Hid. unfold req_out.
   assert (R : forall x, mem x (inflight s) = true -> mem x (remove id (id :: run)) = true).
   { intros x Hx. rewrite mem_remove, mem_cons, (mem_other _ _ _ Hid Hx), (Hi x Hx).
     apply orb_true_r. }
-  destruct a, hang; cbn [req_out fst snd track fold_left]; split;
+  destruct (due e a), hang; cbn [fst snd track fold_left]; split;
     cbn [set_inflight over inflight]; try assumption.
   - intros x Hx. rewrite mem_cons, (Hi x Hx). apply orb_true_r.
   - intros x. rewrite !mem_cons. intros Hx. apply orb_true_iff in Hx.
@@ -394,9 +419,11 @@ Proof.
               default_deadline_wf) as (D & a & HD & _ & Ha & ->).
   destruct (mem id (inflight s)) eqn:M; [rewrite (Hi id M); reflexivity|].
   destruct (probe_deadline e D He HD) as [HDw HDn].
-  destruct (proj1 (probe_arm e D He HDw HDn) Hwh) as (w & Hw).
+  destruct (proj1 (probe_arm e D He HDw HDn) Hwh) as (w & Hw & Hnd).
   rewrite Hw in Ha. injection Ha as <-.
-  cbn [req_out snd has_obs existsb hobs_eqb]. rewrite N.eqb_refl. apply orb_true_r.
+  unfold req_out. replace (due e (Armed w)) with false
+    by (symmetry; unfold due; apply Z.leb_gt; exact Hnd).
+  cbn [snd has_obs existsb hobs_eqb]. rewrite N.eqb_refl. apply orb_true_r.
 Qed.
 
 Lemma mon_server_run : forall c e, mode c = MServer -> env_ok e -> wheel_env e ->
@@ -632,23 +659,26 @@ Qed.
 (* 2. the monitor accepts every run of the model *)
 
 (* (cut = 4, the header-only cut, excluded; in server mode the wheel must not be ahead of the
-   clock by the default deadline: see c16_wheel_ahead_refuted and wheel_env_necessary) *)
-Theorem c16_monitor_holds : forall c e ops, env_ok e -> Forall hop_wf ops ->
+   clock by the default deadline, nor the queue older than the range of ms(): see
+   c16_wheel_ahead_refuted, c16_wheel_saturated_refuted and wheel_env_necessary) *)
+Theorem c16_monitor_holds : forall c e ops, env_ok (aged_env e (quiet_age ops)) -> Forall hop_wf ops ->
   hcut c <> 4%nat ->
-  (mode c = MServer -> wheel_env e) ->
+  (mode c = MServer -> wheel_env (aged_env e (quiet_age ops))) ->
   c16_ok c e ops (fst (hrun c e ops)) = true.
 Proof.
   intros c e ops He Hwf Hcut Hwh. unfold c16_ok, hrun.
+  set (e' := aged_env e (quiet_age ops)) in *.
   destruct (mode c) eqn:M.
   - apply mon_server_run; try assumption; [exact (Hwh eq_refl)|].
     split; [discriminate|]. intros x Hx. discriminate Hx.
   - apply mon_client_run; try assumption. reflexivity.
-  - apply (mon_stream_run c e ops M Hcut Hwf ops [] hinit false); [reflexivity|].
+  - apply (mon_stream_run c e' ops M Hcut Hwf ops [] hinit false); [reflexivity|].
     split; [reflexivity|]. intros _. split; reflexivity.
 Qed.
 
 (* in the other two modes no extra premise is needed *)
-Corollary c16_monitor_holds_client_stream : forall c e ops, env_ok e -> Forall hop_wf ops ->
+Corollary c16_monitor_holds_client_stream : forall c e ops,
+  env_ok (aged_env e (quiet_age ops)) -> Forall hop_wf ops ->
   hcut c <> 4%nat -> mode c <> MServer ->
   c16_ok c e ops (fst (hrun c e ops)) = true.
 Proof.
@@ -667,7 +697,38 @@ Proof.
 Qed.
 
 Lemma std_env_wheel : wheel_env std_env.
-Proof. unfold wheel_env. split; vm_compute; reflexivity. Qed.
+Proof. unfold wheel_env. repeat split; vm_compute; reflexivity. Qed.
+
+(* the harness's environment stays inside the ranges for every quiet age up to dq_lag_max
+   (37 183 476 s is the whole number of seconds in 37 183 476 735 ms, about 430 days) ... *)
+Lemma std_env_aged_ok : forall secs, (0 <= secs <= 37183476)%Z ->
+  env_ok (aged_env std_env secs) /\ wheel_env (aged_env std_env secs).
+Proof.
+  intros secs Hs. unfold env_ok, wheel_env, aged_env, std_env, shift_secs.
+  cbn [e_now e_wall e_start e_elapsed t_secs t_nanos].
+  set (now := {| t_secs := (1000000 + secs)%Z; t_nanos := 0%Z |}).
+  set (start := {| t_secs := 1000000%Z; t_nanos := 0%Z |}).
+  assert (Wn : ts_wf now) by (unfold ts_wf, now; cbn [t_secs t_nanos]; lits; lia).
+  assert (Ws : ts_wf start) by (unfold ts_wf, start; cbn [t_secs t_nanos]; lits; lia).
+  assert (Nn : ts_ns now = ((1000000 + secs) * 1000000000)%Z)
+    by (unfold ts_ns, now; cbn [t_secs t_nanos]; lits; lia).
+  assert (Ns : ts_ns start = (1000000 * 1000000000)%Z) by reflexivity.
+  split; [split; [|split]|].
+  - split; [exact Wn|]. unfold now. cbn [t_secs]. lits. lia.
+  - unfold wall_env, ts_wf. cbn [t_secs t_nanos]. lits. lia.
+  - unfold dq_env. split; [exact Ws|]. split; [lia|]. split; [lia|].
+    destruct (duration_since_spec now start Wn Ws) as [W N].
+    rewrite (ms_up_spec _ W), N, Nn, Ns. unfold dq_lag_max. lits.
+    Z.div_mod_to_equations. lia.
+  - rewrite Nn, Ns. lits. lia.
+Qed.
+
+(* ... and one second beyond it the repaired code still panics on a request whose deadline is a
+   year or more away (the residual boundary: dq_env is necessary) *)
+Lemma aged_lag_refuted :
+  let c := {| mode := MServer; listening := false; json := true; hchunks := []; hcut := 0 |} in
+  fst (hrun c std_env [Age 37183477; SReq 1 (Some (94608000, 0)%N) false]) = [[]; [OPanic]].
+Proof. vm_compute. reflexivity. Qed.
 
 (* ------------------------------------------------------------------------------------------ *)
 (* 3. the excluded corner: a stream of valid frames cut exactly after a 4-byte length header ends
@@ -692,13 +753,14 @@ Definition ahead_env : env :=
 (* c16_monitor_holds WITHOUT wheel_env is false: env_ok puts no upper bound on e_elapsed, the
    probe's timer is born expired, the model answers [OStarted 0] only *)
 Lemma c16_wheel_ahead_refuted : exists c e ops,
-  env_ok e /\ Forall hop_wf ops /\ hcut c <> 4%nat /\
+  env_ok (aged_env e (quiet_age ops)) /\ Forall hop_wf ops /\ hcut c <> 4%nat /\
   c16_ok c e ops (fst (hrun c e ops)) = false.
 Proof.
   exists {| mode := MServer; listening := false; json := false; hchunks := []; hcut := 0 |},
          ahead_env, [SProbe 0%N].
   split; [|split; [|split]].
-  - unfold env_ok, ahead_env, std_env, mono_env, wall_env, dq_env, ts_wf.
+  - cbn [quiet_age]. rewrite aged_env_0.
+    unfold env_ok, ahead_env, std_env, mono_env, wall_env, dq_env, ts_wf.
     cbn [e_now e_wall e_start e_elapsed t_secs t_nanos].
     repeat split; vm_compute; discriminate || reflexivity.
   - repeat constructor.
@@ -706,16 +768,48 @@ Proof.
   - vm_compute. reflexivity.
 Qed.
 
+(* a timer queue created 20 000 000 000 000 000 s before now, its wheel one tick short of the
+   saturation point of ms(): inside env_ok, and the wheel is not ahead of the clock *)
+Definition saturated_env : env :=
+  {| e_now := {| t_secs := 0; t_nanos := 0 |};
+     e_wall := e_wall std_env;
+     e_start := {| t_secs := -20000000000000000; t_nanos := 0 |};
+     e_elapsed := 18446744073709551614 |}.
+
+(* the first two clauses of wheel_env are not enough: the probe's timer is Armed at tick
+   u64::MAX, a tick this old clock has long passed, so it is due at once and the model answers
+   [OStarted 0] only *)
+Lemma c16_wheel_saturated_refuted : exists c e ops,
+  env_ok (aged_env e (quiet_age ops)) /\ Forall hop_wf ops /\ hcut c <> 4%nat /\
+  (e_elapsed e < u64_max /\
+   e_elapsed e * 1000000 < ts_ns (e_now e) - ts_ns (e_start e) + default_deadline_secs * NS)%Z /\
+  c16_ok c e ops (fst (hrun c e ops)) = false.
+Proof.
+  exists {| mode := MServer; listening := false; json := false; hchunks := []; hcut := 0 |},
+         saturated_env, [SProbe 0%N].
+  split; [|split; [|split; [|split]]].
+  - cbn [quiet_age]. rewrite aged_env_0.
+    unfold env_ok, saturated_env, std_env, mono_env, wall_env, dq_env, ts_wf.
+    cbn [e_now e_wall e_start e_elapsed t_secs t_nanos].
+    repeat split; vm_compute; discriminate || reflexivity.
+  - repeat constructor.
+  - discriminate.
+  - split; vm_compute; reflexivity.
+  - vm_compute. reflexivity.
+Qed.
+
 (* and exactly so: in EVERY env_ok environment outside wheel_env a single probe on a fresh
    server connection is rejected by the monitor *)
-Lemma wheel_env_necessary : forall c e, env_ok e -> mode c = MServer -> ~ wheel_env e ->
+Theorem wheel_env_necessary : forall c e, env_ok e -> mode c = MServer -> ~ wheel_env e ->
   c16_ok c e [SProbe 0%N] (fst (hrun c e [SProbe 0%N])) = false.
 Proof.
-  intros c e He Hmode Hnw. unfold c16_ok, hrun. rewrite Hmode, hrun_from_cons.
+  intros c e He Hmode Hnw. unfold c16_ok, hrun. cbn [quiet_age]. rewrite aged_env_0.
+  rewrite Hmode, hrun_from_cons.
   rewrite (hstep_live c e hinit (SProbe 0%N) eq_refl), Hmode. cbn [server_step].
   destruct (server_request_shape c e hinit 0%N (Some (from_secs default_deadline_secs)) false He
               default_deadline_wf) as (D & a & HD & _ & Ha & ->).
   destruct (probe_deadline e D He HD) as [HDw HDn].
-  rewrite (proj2 (probe_arm e D He HDw HDn) Hnw) in Ha. injection Ha as <-.
-  reflexivity.
+  destruct (proj2 (probe_arm e D He HDw HDn) Hnw) as (a' & Ha' & Hdue).
+  rewrite Ha' in Ha. injection Ha as <-.
+  cbn [mem inflight hinit existsb]. unfold req_out. rewrite Hdue. reflexivity.
 Qed.
